@@ -3,7 +3,7 @@
    in harness/check_C06.py and harness/impl/c06.py):
      SEP1 = [1] between the fields of one argument / of the result,
      SEP2 = [2] between list items, SEP3 = [3] between the two halves of a pair. *)
-From MV Require Import Base.Strs FS.Replace Determ.Model.
+From MV Require Import Base.Strs FS.Replace Determ.Model Determ.DepFile.
 Open Scope N_scope.
 
 Definition SEP1 : str := [1].
@@ -98,6 +98,16 @@ Fixpoint split_mark (l : list str) : list str * list str :=
               else let '(a, b) := split_mark r in (x :: a, b)
   end.
 
+(* ---- depfiles: a rule is  targets(SEP2) SEP1 deps(SEP2) *)
+Definition parse_rule (r : str) : list str * list str :=
+  match split 1 r with
+  | [t; d] => (lst t, lst d)
+  | [t] => (lst t, [])
+  | _ => ([], [])
+  end.
+Definition rules_size (rs : list (list str * list str)) : nat :=
+  fold_right (fun r n => (length (fst r) + length (snd r) + n)%nat) O rs.
+
 Definition run (fn : str) (args : list str) : str :=
   if str_eqb fn (s2l "nline") then
     match args with
@@ -121,5 +131,14 @@ Definition run (fn : str) (args : list str) : str :=
   else if str_eqb fn (s2l "depnames") then
     let '(deps, nonces) := split_mark args in
     join SEP2 (dep_names (map dec_dep deps) (map digits_val nonces))
+  else if str_eqb fn (s2l "depfile") then
+    match args with
+    | name :: rules =>
+        let rs := map parse_rule rules in
+        match get_all_dependencies (S (S (rules_size rs))) (df_of_rules rs) name with
+        | Some r => join SEP2 r
+        | None => exc (s2l "OutOfFuel")
+        end
+    | _ => s2l "?" end
   else if str_eqb fn (s2l "fs") then render_res (fs_run args empty_fs)
   else s2l "?".
